@@ -287,6 +287,8 @@ def _(v):
         v.prove("above_the_bound_is_not_sane", es._result_is_sane(c0, np.array([2.1, 1.0, 0.5])) is False)
         v.prove("admissible_state_is_sane", es._result_is_sane(c0, np.array([0.5, 0.5, 0.75])) is True and es._result_is_sane(c0, np.array([0.0, 1e9, 1.0])) is True)
         v.prove("nan_is_not_sane", es._result_is_sane(c0, np.array([np.nan, 1.0, 0.5])) is False and es._result_is_sane(c0, np.array([np.nan] * 3)) is False)
+        # an infinite concentration is no composition either, also for the species without elemental bound (inf > inf*(1+rtol) is False)
+        v.prove("infinity_is_not_sane", es._result_is_sane(c0, np.array([1.0, np.inf, 0.5])) is False and es._result_is_sane(c0, np.array([np.inf, 1.0, 0.5])) is False)
 
 
 @harness("C08", "single_equilibrium.solve_equilibrium", functions=["chempy._equilibrium:solve_equilibrium", "chempy._equilibrium:_solve_equilibrium_coord", "chempy._equilibrium:_get_rc_interval",
@@ -389,9 +391,14 @@ def _(v):
     # [solid]**|nu| = small (a positive power of the solid's concentration), not its reciprocal
     form = EqSystem([Equilibrium({"Na+": 1, "Cl-": 1}, {"NaCl": 1}, sympy.Rational(1, 37)), Equilibrium({"Ag+": 2, "Cl-": 2}, {"AgCl": 2}, sympy.Integer(5000) ** 2)], subs)
     rows = {npr: [list(map(int, r)) for r in form.stoichs(npr).tolist()] for npr in ((), (0,), (1,), (0, 1))}
-    want = {(): [[-1, -1, 0, 0, 0, 0, 0], [0, -2, -2, 0, 0, 0, 0]], (0,): [[0, 0, 0, 0, 0, 1, 0], [0, -2, -2, 0, 0, 0, 0]], (1,): [[-1, -1, 0, 0, 0, 0, 0], [0, 0, 0, 0, 0, 0, 2]],
-            (0, 1): [[0, 0, 0, 0, 0, 1, 0], [0, 0, 0, 0, 0, 0, 2]]}
+    # 'absent' means [solid] = small whatever multiple of the reaction is written: the exponent of the solid in that equation is 1, not the
+    # solid's coefficient ([solid]**3 = small would leave small**(1/3) ~ 6e-6 M of 'absent' solid)
+    want = {(): [[-1, -1, 0, 0, 0, 0, 0], [0, -2, -2, 0, 0, 0, 0]], (0,): [[0, 0, 0, 0, 0, 1, 0], [0, -2, -2, 0, 0, 0, 0]], (1,): [[-1, -1, 0, 0, 0, 0, 0], [0, 0, 0, 0, 0, 0, 1]],
+            (0, 1): [[0, 0, 0, 0, 0, 1, 0], [0, 0, 0, 0, 0, 0, 1]]}
     v.prove("absent_solid_equation_in_the_formation_direction", rows == want, detail=repr({k: r for k, r in rows.items() if r != want[k]}))
+    diss3 = EqSystem([Equilibrium({"NaCl": 3}, {"Na+": 3, "Cl-": 3}, sympy.Integer(37) ** 3)], subs)
+    v.prove("absent_solid_equation_does_not_depend_on_the_multiple_written", [list(map(int, r)) for r in diss3.stoichs((0,)).tolist()] == [[0, 0, 0, 0, 0, 1, 0]]
+            and [list(map(int, r)) for r in diss3.stoichs(()).tolist()] == [[3, 3, 0, 0, 0, 0, 0]], detail=repr(diss3.stoichs((0,)).tolist()))
 
 
 @harness("C08", "single_equilibrium.integer_inputs", functions=["chempy._equilibrium:solve_equilibrium"], kind="data")
